@@ -1,4 +1,4 @@
-\* case generator (model checking): every tree shape with 5..6 nodes over Memory(fanout 2), Compute(fanout 3), Fork, Hierarchical
+\* case generator (model checking): every tree shape with exactly 6 nodes over Memory(fanout 2), Compute(fanout 3), Fork, Hierarchical
 CONSTANTS
   MaxN = 6
   MaxDepth = 4
@@ -6,7 +6,7 @@ CONSTANTS
   BranchKinds = {"Fork", "Hierarchical"}
   Fanouts = {2}
   ComputeFanouts = {3}
-  MinEmit = 5
+  MinEmit = 6
   AppendComputes = TRUE
   CountOwn = FALSE
 INIT Init
